@@ -546,6 +546,10 @@ class ZoneSpecifier:
         # Used by init_*() to indicate the current year of interest.
         self.year = 0
 
+        # True if the Matches and Transitions of self.year were completely
+        # generated. A failed init_for_year() must not look like a filled cache.
+        self.is_filled = False
+
         # List of ZoneMatch, i.e. ZoneEra which match the interval of interest.
         self.matches: List[ZoneMatch] = []
 
@@ -632,11 +636,12 @@ class ZoneSpecifier:
         if self.debug:
             logging.info('init_for_year(): year: %d' % year)
         # Check if cache filled
-        if self.year == year:
+        if self.is_filled and self.year == year:
             if self.debug:
                 logging.info('init_for_year(): cached')
             return
 
+        self.is_filled = False
         self.year = year
         self.max_transition_buffer_size = 0
         self.matches = []
@@ -686,6 +691,7 @@ class ZoneSpecifier:
         self._calc_abbrev(self.transitions)
         if self.debug:
             print_transitions(self.transitions)
+        self.is_filled = True
 
     def get_buffer_sizes(
         self,
